@@ -494,6 +494,7 @@ fn resolve(cx: &mut ClientCx, op: &Op) -> (Option<HKind>, Option<ActorIdx>) {
         | Op::Detach { h, .. }
         | Op::DropThenJoin { h }
         | Op::JoinStart { h }
+        | Op::SendThenDrop { h, .. }
         | Op::Clone { h, .. }
         | Op::Downgrade { h, .. }
         | Op::Upgrade { h, .. }
@@ -542,6 +543,20 @@ async fn exec(cx: &mut ClientCx, op: &Op) -> Res {
                 H::Sender(s) => res_unit(s.send(m).await),
                 H::WeakSender(w) => res_unit(w.try_send(m).await),
                 _ => Res::Skipped,
+            }
+        }
+        Op::SendThenDrop { h, id, work } => {
+            let m = mk_msg(*id, work);
+            match std::mem::replace(&mut cx.ent(*h).h, H::Empty) {
+                H::Sender(s) => {
+                    let f = s.send(m);
+                    drop(s);
+                    res_unit(f.await)
+                }
+                other => {
+                    cx.ent(*h).h = other;
+                    Res::Skipped
+                }
             }
         }
         Op::ForceSend { h, id, work } => {
